@@ -365,3 +365,66 @@ Example C15_history_nonvacuous :
   (* the answers a pointer-keyed one-entry memo would give are rejected *)
   /\ prop_c15_seq_b ex_rules2 ex_history [false; false; false; true; true] = false.
 Proof. vm_compute. repeat split; reflexivity. Qed.
+
+(* ---- front end (round 8): the filter an application gets from SimplePipeline::filterCategory(rules) behaves
+   exactly as CategoryFilter(rules) constructed directly - for every rule text, every message and whatever filters
+   the process requested through the front end before; every theorem above therefore holds for it as well.
+   src_cat_front is translated from the body of SimplePipeline::filterCategory (simplepipeline.cpp) on every run.
+   The verdict of the pipeline  filterCategory(rules).handler(h)  for a message = whether h is reached. *)
+Theorem C15_source_front_end_good : cat_front_goodb src_cat_front = true.
+Proof. vm_compute. reflexivity. Qed.
+Print Assumptions C15_source_front_end_good.
+
+Theorem C15_front_end_is_transparent : forall earlier rules cat t,
+  front_reached src_cfg src_cat_front earlier rules cat t = category_filter src_cfg rules cat t.
+Proof. exact (front_reached_is_direct src_cfg src_cat_front C15_source_front_end_good). Qed.
+Print Assumptions C15_front_end_is_transparent.
+
+Theorem C15_front_end_history_is_transparent : forall earlier rules qs,
+  front_answers src_cfg src_cat_front earlier rules qs = object_answers src_cfg rules qs.
+Proof. exact (front_answers_is_direct src_cfg src_cat_front C15_source_front_end_good). Qed.
+Print Assumptions C15_front_end_history_is_transparent.
+
+Theorem C15_front_end_verdict_is_specified : forall earlier rules cat t,
+  front_reached src_cfg src_cat_front earlier rules cat t = spec_verdict rules cat t.
+Proof. exact (front_reached_spec src_cfg src_cat_front C15_source_configuration_good C15_source_front_end_good). Qed.
+Print Assumptions C15_front_end_verdict_is_specified.
+
+Theorem C15_front_end_answers_are_specified : forall earlier rules qs,
+  front_answers src_cfg src_cat_front earlier rules qs = spec_answers rules qs.
+Proof. exact (front_answers_spec src_cfg src_cat_front C15_source_configuration_good C15_source_front_end_good). Qed.
+Print Assumptions C15_front_end_answers_are_specified.
+
+Theorem C15_front_end_oracle_holds : forall earlier rules cat t,
+  prop_c15_b rules cat t (front_reached src_cfg src_cat_front earlier rules cat t) = true.
+Proof. exact (front_oracle_holds src_cfg src_cat_front C15_source_configuration_good C15_source_front_end_good). Qed.
+Print Assumptions C15_front_end_oracle_holds.
+
+Theorem C15_front_end_history_oracle_holds : forall earlier rules qs,
+  prop_c15_seq_b rules qs (front_answers src_cfg src_cat_front earlier rules qs) = true.
+Proof. exact (front_seq_oracle_holds src_cfg src_cat_front C15_source_configuration_good C15_source_front_end_good). Qed.
+Print Assumptions C15_front_end_history_oracle_holds.
+
+(* a front end that does not hand the rule text on does not have the property ... *)
+Theorem C15_front_end_dropping_the_rules_refuted : exists rules cat t,
+  front_reached std_cfg dropping_front [] rules cat t <> spec_verdict rules cat t.
+Proof. exact dropping_front_refuted. Qed.
+Print Assumptions C15_front_end_dropping_the_rules_refuted.
+
+(* ... nor one that hands out ONE shared static object: it is right for the first request of a process (a test
+   that obtains one filter does not see it) and wrong for a later request with other rules *)
+Theorem C15_shared_filter_object_refuted :
+  (forall rules cat t, front_reached std_cfg shared_front [] rules cat t = spec_verdict rules cat t)
+  /\ exists earlier rules cat t, front_reached std_cfg shared_front earlier rules cat t <> spec_verdict rules cat t.
+Proof. exact shared_front_refuted. Qed.
+Print Assumptions C15_shared_filter_object_refuted.
+
+(* non-vacuity: after the earlier requests "b=false" and "*=false" the pipeline for ex_rules2 still answers the
+   history as the direct object does (drop, pass, drop, pass, drop); the broken front ends are rejected by the check *)
+Example C15_front_end_nonvacuous :
+  front_answers src_cfg src_cat_front [fx_b_false; [42;61;102;97;108;115;101]] ex_rules2 ex_history = [false; true; false; true; false]
+  /\ front_reached src_cfg src_cat_front [fx_b_false] fx_a_false [97] Debug = false
+  /\ front_reached src_cfg src_cat_front [fx_b_false] fx_a_false [98] Debug = true
+  /\ front_reached src_cfg shared_front [fx_b_false] fx_a_false [97] Debug = true
+  /\ cat_front_goodb dropping_front = false /\ cat_front_goodb shared_front = false.
+Proof. vm_compute. repeat split; reflexivity. Qed.
